@@ -6,6 +6,6 @@ d=/verif/seeded/$id
 mkdir -p $d
 git -C /tmp/wt/$c diff > $d/patch.diff
 [ -s $d/patch.diff ] || { echo "empty diff"; exit 1; }
-cp /tmp/wt/out_$c/demo.py $d/demo.py 2>/dev/null || true
-cp /tmp/wt/out_$c/notes.md $d/notes.md 2>/dev/null || true
+cp /tmp/wt/${OUTP:-out}_$c/demo.py $d/demo.py 2>/dev/null || true
+cp /tmp/wt/${OUTP:-out}_$c/notes.md $d/notes.md 2>/dev/null || true
 wc -l $d/patch.diff
